@@ -378,10 +378,24 @@ class C18(Prop):
             total = 2 * f1 + 2 * (b1 + h)
             margin = rng.choice([0, 1, 2, f1, f1 + 1, f1 + b1 + h, f1 + b1 + h - 1, f1 + b1 + h + 1, total, total + 1,
                                  (f1 + b1) // 2, (f1 + b1) // 2 + 1, rng.range(0, total + 2)])
-            c0 = MAXTS - max(0, margin)
+            if rng.chance(2, 3):
+                # the boundaries of each procedure: the last schedule that still fits, the first that does not
+                tr1 = f1 + b1 + h
+                if proc == "lan":
+                    edge = b1 + h + f1                       # written = c0 + (arrival of WRITE - arrival of RECORD)
+                    margin = edge + rng.choice([0, -1, 1, -2])
+                elif proc == "nonlan":
+                    prop = (f1 + b1) // 2
+                    margin = rng.choice([tr1 + prop, tr1 + prop - 1, tr1 + prop + 1, tr1, tr1 - 1, tr1 + prop // 2])
+                else:
+                    margin = rng.choice([0, 0, 1, -1])
+            c0 = MAXTS - margin if margin >= 0 else MAXTS
+            if margin < 0:
+                # the master clock passes 2^48-1 before the task even starts: start it late enough
+                c0 = MAXTS
             meta["c0"] = c0
             sc = Scenario(proc, c0)
-            sc.plain("a", 0, f1, b1, h, rep=h, plain_cfg=True)
+            sc.plain("a", 0 if margin >= 0 else -margin, f1, b1, h, rep=h, plain_cfg=True)
             r = sc.meta["syncs"]["a"]["truth"]
             must = {}
             if r[0] == "err" and r[1] in ("overflow", "iin2", "nosystime"):
